@@ -15,6 +15,12 @@ from vlib import common, realrun, workload
 def make_case(r):
     script = workload.small_script(r, r.choice(['small', 'medium']))
     text = workload.render_with_noise(r, script.nested(), comments=False)
+    if r.random() < 0.4:
+        # characters outside ASCII early in the file (a comment line of a
+        # benchmark header): the bytes the command is given still have to be
+        # the whole candidate
+        text = '; ' + ''.join(r.choice(['é', 'ß', '€', '→', 'Ω'])
+                              for _ in range(r.randint(1, 5))) + '\n' + text
     rules, pred = workload.pick_spec(r, text, nclasses=r.choice([2, 3]))
     _, ex, out, err, _ = realrun.eval_spec(rules, text)
     golden = (ex, out, err)
